@@ -161,6 +161,21 @@ func newRef(sp *spec) *ref {
 	}
 	// Simple cycles: a simple path c -> x closed by the edge x -> c.
 	seenZero := map[uint8]bool{}
+	// self loops (multigraphs, user graph types): a negative self loop is a
+	// negative cycle through its node, a zero-weight one a zero-weight cycle,
+	// a positive one never matters.
+	for c := 0; c < n; c++ {
+		if !sp.has[c][c] {
+			continue
+		}
+		if sp.w[c][c] < 0 {
+			r.anyNeg = true
+			r.negNode[c] = true
+		} else if sp.w[c][c] == 0 && !seenZero[1<<uint(c)] {
+			seenZero[1<<uint(c)] = true
+			r.zero = append(r.zero, 1<<uint(c))
+		}
+	}
 	for c := 0; c < n; c++ {
 		for x := 0; x < n; x++ {
 			if x == c || !sp.has[x][c] {
@@ -262,6 +277,12 @@ func (r *ref) unique3(s, t int, forward bool) int {
 			continue
 		}
 		touch = true
+		if z&(z-1) == 0 {
+			// a zero-weight SELF LOOP on the path: don't-care (zone 10 in
+			// NOTES.md: Floyd-Warshall ignores non-negative self loops and
+			// answers true, the predecessor-based trees answer false).
+			continue
+		}
 		if z&anchor == 0 {
 			return uFalse
 		}
